@@ -15,14 +15,19 @@ CP = ["none", "pass", "reject", "raise", "odd", "raise0", "lt50", "fpass", "frej
 # truthy / falsy: the checkpoint answers with non-bool values ("x", [0], 1.5 / "", [], None, 0.0);
 # boolraise: it answers with an object whose truth value cannot be taken (`__bool__` raises) - a gate error
 CP_AS = {"fpass": "pass", "freject": "reject", "fraise": "raise", "truthy": "pass", "falsy": "reject", "boolraise": "raise"}
-PR = ["ok", "raise", "raise0", "zero"]
-EH = ["none", "ok", "raise", "raise0", "zero"]       # zero: returns the falsy signal 0 (a value is a value)
+PR = ["ok", "raise", "raise0", "zero", "nil"]
+EH = ["none", "ok", "raise", "raise0", "zero", "nil"]  # zero / nil: return the falsy signals 0 / None (a value is a value)
 AMPS = ["1", "2", "4", "1/2", "8", "1/4", "0", "-2"]
 MAXA = ["4", "100", "1", "16", "4", "100", "1/2", "1/4", "0"]
 
 
+NIL = 900001       # how the protocol shows the signal None (a legal signal: "no value" handed from stage to stage)
+
+
 def sig(x):
-    """signals as the protocol shows them: ints as they are, the MAPK preset's dicts by the tier they carry"""
+    """signals as the protocol shows them: ints as they are, the MAPK preset's dicts by the tier they carry, None as NIL"""
+    if x is None:
+        return NIL
     if isinstance(x, dict):
         x = x.get("tier", "d")
     if isinstance(x, int) and not isinstance(x, bool):
@@ -39,14 +44,22 @@ class C19(Prop):
     thorough_budget = 60000
     all_branches = []
     assumptions = [
-        "callbacks (checkpoint, processor, error handler) return or raise; they do not call back into the cascade",
+        "callbacks (checkpoint, processor, error handler, observers) return or raise exceptions that can be described (str(e) returns)",
+        "callbacks do not assign the cascade's configuration or stage list while a run is in progress (halt_on_failure / "
+        "max_amplification are re-read at each use); overlapping runs of one object are outside the theorems (search-only `nest`)",
         "amplification factors used by the correspondence are dyadic rationals, on which float arithmetic is exact",
-        "on_stage_complete / on_cascade_complete callbacks, statistics, timing fields and run_parallel are not modelled",
+        "'clamped product' is the running clamp (gain held at max_amplification from the start and after every completed stage)",
+        "run_parallel (fork entry point) is outside the property: modelled as the code is and compared, not judged",
     ]
     extractors = ["E-cascade", "py2lean-cascade"]
-    trusted_modelled = ["extractor E-cascade: the real Cascade.run evaluated on all 1- and (required) 2-stage pipelines over the "
+    trusted_modelled = ["translator py2lean-cascade: the SOURCE of Cascade.run executed symbolically (prologue, one loop iteration, "
+                        "epilogue; helpers inlined) into Operon/Gen/CascadeTranslated.lean on every run and proved equal to the model "
+                        "(c19_translation_agrees_init/_loop_body/_finish, c19_translated_run_is_model); trusted: its reading of the "
+                        "Python subset listed in its docstring",
+                        "extractor E-cascade: the real Cascade.run evaluated on all 1- and (required) 2-stage pipelines over the "
                         "behaviour alphabet, regenerated each run into Operon/Gen/CascadeTable.lean (c19_stage_table_agrees)",
-                        "modelled, not verified: Cascade.run's loop as Operon.Cascade.stageStep/runFrom beyond that table"]
+                        "modelled, not verified: run_parallel (Operon.Cascade.runParallel), statistics counters, the MAPK preset's "
+                        "lambdas (driver abstraction of dict signals by tier), timing fields / get_history / AgentCascade not modelled"]
 
     def setup(self, ctx):
         import_repo()
@@ -68,7 +81,8 @@ class C19(Prop):
         return {"lines": lines, "note": note}
 
     def _rand_stage(self, rng):
-        return (rng.choice(CP), rng.choice(["ok", "ok", "ok", "raise", "raise0", "raise", "zero"]), rng.choice(EH), rng.random() < 0.7,
+        return (rng.choice(CP), rng.choice(["ok", "ok", "ok", "ok", "raise", "raise0", "raise", "zero", "nil"]), rng.choice(EH),
+                rng.random() < 0.7,
                 rng.choice(AMPS))
 
     def generate(self, rng, tier, n):
@@ -150,10 +164,11 @@ class C19(Prop):
                  for eh in ("none", "ok", "raise", "raise0") for req in (True, False)]
         # quick tier: depth 2 without the empty-message exception variants (they are in depth 1, in the histories and in the
         # random stream; the loop body is tied to the source for ALL stages by the translation and table theorems)
-        alpha2 = [a for a in alpha if "raise0" not in a] if tier == "quick" else alpha
+        # thorough tier: depth 2 over the full alphabet, depth 3 without the empty-message variants (221 184 pipelines)
+        plain = [a for a in alpha if "raise0" not in a]
         cases = []
         for k in range(1, depth + 1):
-            for stages in itertools.product(alpha if k == 1 else alpha2, repeat=k):
+            for stages in itertools.product(alpha if k == 1 or (k == 2 and tier != "quick") else plain, repeat=k):
                 for halt in (True, False):
                     cases.append(self._case(halt, "4", list(stages), 1, f"exhaustive depth {k}"))
         hist = []
@@ -207,7 +222,8 @@ class C19(Prop):
                         extra.append(c)
         # falsy signals (0) out of processors and handlers: a value is a value
         for halt in (True, False):
-            for s1 in (("none", "zero", "none", True, "2"), ("pass", "raise", "zero", True, "2"), ("pass", "raise0", "zero", False, "2")):
+            for s1 in (("none", "zero", "none", True, "2"), ("pass", "raise", "zero", True, "2"), ("pass", "raise0", "zero", False, "2"),
+                       ("none", "nil", "none", True, "2"), ("pass", "raise", "nil", True, "2"), ("lt50", "nil", "none", False, "2")):
                 for s2 in small:
                     extra.append(self._case(halt, "4", [s1, s2], 1, "exhaustive falsy signal"))
                     extra.append(self._case(halt, "4", [s2, s1], 1, "exhaustive falsy signal"))
@@ -307,8 +323,9 @@ class C19(Prop):
                 if cp == "boolraise":
                     log.append(f"cp{pos()}:{sig(x)}:x")
                     return NoTruth()
+                xv = NIL if x is None else x
                 r = True if cp in ("pass", "fpass", "truthy") else False if cp in ("reject", "freject", "falsy") else \
-                    (isinstance(x, int) and x % 2 == 1) if cp == "odd" else (isinstance(x, int) and x < 50)
+                    (isinstance(xv, int) and xv % 2 == 1) if cp == "odd" else (isinstance(xv, int) and xv < 50)
                 log.append(f"cp{pos()}:{sig(x)}:{'t' if r else 'f'}")
                 if cp == "truthy":
                     return ["x", [0], 1.5, (None,)][i0 % 4]
@@ -352,14 +369,18 @@ class C19(Prop):
                             depth[0] -= 1
                 elif pr == "zero":
                     return 0
+                elif pr == "nil":
+                    return None
                 elif pr != "ok":
                     raise fault(pr, "p")
-                return x * 10 + i0 + 1
+                return (NIL if x is None else x) * 10 + i0 + 1
 
             def ef(e):
                 log.append(f"e{pos()}")
                 if eh == "zero":
                     return 0
+                if eh == "nil":
+                    return None
                 if eh != "ok":
                     raise fault(eh, "e")
                 return 7000 + i0
@@ -380,7 +401,8 @@ class C19(Prop):
             res = ",".join(f"{names.index(s.stage_name) if uniq and s.stage_name in names else j}"
                            f"{st.get(s.status.value, '?')}:{show_rat(s.amplification_factor)}"
                            for j, s in enumerate(r.stage_results))
-            fin = "none" if r.final_output is None else f"some:{sig(r.final_output)}"
+            # a successful run whose last signal is None releases None: told apart from "no output" by the success flag
+            fin = "none" if (r.final_output is None and not r.success) else f"some:{sig(r.final_output)}"
             blk = "none" if r.blocked_at is None else str(r.blocked_at)
             return " ".join([show_bool(r.success), fin, str(r.stages_completed), str(r.stages_total),
                              show_rat(r.total_amplification), blk, "[" + res + "]",
@@ -710,8 +732,8 @@ class C19(Prop):
                               k = int(b[1][4:])
                               x = 1 if k == 1 else k
                           else:
-                              x = (x * 10 + b[5] + 1) if b[1] in ("ok", "nest") else 0 if b[1] == "zero" or b[2] == "zero" \
-                                  else 7000 + b[5]
+                              x = (x * 10 + b[5] + 1) if b[1] in ("ok", "nest") else 0 if b[1] == "zero" else NIL if b[1] == "nil" \
+                                  else 0 if b[2] == "zero" else NIL if b[2] == "nil" else 7000 + b[5]
                       if fin != f"some:{x}":
                           out.append(Violation("final_output_is_composition", f"some:{x}", fin, idx))
                       if any(CP_AS.get(b[0], b[0]) in ("reject", "raise", "raise0") for b in beh):
